@@ -152,3 +152,29 @@ package ingressanalyzer
 //@   ensures [C10] recorded: (res == nil && svcKnown(ia, svc.Namespace, svc.Name) && !old(svcKnown(ia, svc.Namespace, svc.Name))) ==>
 //@         (forall i int :: {ia.servicesToPortsAndPeersMap[svc.Namespace][svc.Name].peers[i]} (0 <= i && i < len(ia.servicesToPortsAndPeersMap[svc.Namespace][svc.Name].peers)) ==>
 //@              svcSelects(svc, ia.servicesToPortsAndPeersMap[svc.Namespace][svc.Name].peers[i]))
+
+// ---------------------------------------------------------------------------------------------
+// Route -> services (C10): the `to` target and every alternate backend of kind Service (or without kind) is listed, each with
+// the route's port.targetPort (none when the route has no port), and nothing else is listed
+// ---------------------------------------------------------------------------------------------
+//@ import ocroutev1 "github.com/openshift/api/route/v1"
+//@ fun rtKindOK(kind string) bool = kind == "" || kind == "Service"
+//@ fun rtPortIs(si serviceInfo, rt *ocroutev1.Route) bool = if rt.Spec.Port != nil then si.servicePort == rt.Spec.Port.TargetPort
+//@       else (si.servicePort.Type == 0 && si.servicePort.IntVal == 0 && si.servicePort.StrVal == "")
+//@ pred rtAltListed(res []serviceInfo, rt *ocroutev1.Route, n int) = forall b int :: {rt.Spec.AlternateBackends[b]} (0 <= b && b < n && rtKindOK(rt.Spec.AlternateBackends[b].Kind)) ==>
+//@     (exists i int :: {res[i]} 0 <= i && i < len(res) && res[i].serviceName == rt.Spec.AlternateBackends[b].Name && rtPortIs(res[i], rt))
+//@ pred rtToListed(res []serviceInfo, rt *ocroutev1.Route) = rtKindOK(rt.Spec.To.Kind) ==> (exists i int :: {res[i]} 0 <= i && i < len(res) && res[i].serviceName == rt.Spec.To.Name && rtPortIs(res[i], rt))
+//@ pred rtOnly(res []serviceInfo, rt *ocroutev1.Route, n int) = forall i int :: {res[i]} (0 <= i && i < len(res)) ==> (rtPortIs(res[i], rt) && ((rtKindOK(rt.Spec.To.Kind) && res[i].serviceName == rt.Spec.To.Name)
+//@     || (exists b int :: {rt.Spec.AlternateBackends[b]} 0 <= b && b < n && rtKindOK(rt.Spec.AlternateBackends[b].Kind) && res[i].serviceName == rt.Spec.AlternateBackends[b].Name)))
+//@ func (*IngressAnalyzer).getRouteServices
+//@   nosafety
+//@   requires ia != nil && rt != nil
+//@   modifies *
+//@   ensures [C10] to: rtToListed(res, rt)
+//@   ensures [C10] alternates: rtAltListed(res, rt, len(rt.Spec.AlternateBackends))
+//@   ensures [C10] only: rtOnly(res, rt, len(rt.Spec.AlternateBackends))
+//@   loop 1:
+//@     invariant rt: rt.Spec.Port == pre(rt.Spec.Port) && rt.Spec.To.Kind == pre(rt.Spec.To.Kind) && rt.Spec.To.Name == pre(rt.Spec.To.Name)
+//@     invariant to: rtToListed(targetServices, rt)
+//@     invariant alternates: rtAltListed(targetServices, rt, rangeindex + 1)
+//@     invariant only: rtOnly(targetServices, rt, rangeindex + 1)
